@@ -1,11 +1,13 @@
-(** * C06 — the idempotency classifier: lexing is Ragel's maximal munch over the rule list
-    regenerated from parser/lexer.rl; whatever does not parse is not idempotent; the verdict
-    is a function of the token stream.  (Soundness against the documented constructs and
-    spelling stability of whole statements are carried by the correspondence run; see the
-    examples at the end and DESIGN.md section 5.) *)
+(** * C06 — the idempotency classifier: sound and complete against the documented constructs
+    on the syntax of Model/Ast.v (every DML form, nested terms, collections, UDT/tuple literals,
+    casts, function calls, USING/WHERE/IF, batches); lexing is Ragel's maximal munch over the rule
+    list regenerated from parser/lexer.rl; whatever does not parse is not idempotent; the verdict
+    is a function of the token stream.  (That a statement's text lexes to the printed token list
+    -- spelling stability -- is carried by the correspondence run, which re-spells every
+    generated statement.) *)
 From Coq Require Import List NArith Bool.
 From CqlProxy Require Import Lib.Val Lib.Util Lib.Regex Gen.LexRules Gen.Tables Model.Lexer Model.Parser
-  Proofs.RegexProofs Proofs.ParserProofs.
+  Proofs.RegexProofs Proofs.ParserProofs Model.Ast Proofs.AstProofs.
 Import ListNotations.
 Local Open Scope N_scope.
 
@@ -34,6 +36,58 @@ Theorem c06_verdict_is_a_function_of_tokens :
   forall a b, tokenize a = tokenize b -> is_query_idempotent a = is_query_idempotent b.
 Proof. intros a b H. unfold is_query_idempotent. rewrite H. reflexivity. Qed.
 Print Assumptions c06_verdict_is_a_function_of_tokens.
+
+(** ** Soundness and completeness on the grammar (proofs: Proofs/Ast*.v, one simulation lemma per
+    nonterminal of the recursive-descent classifier over positioned lexer states).
+
+    [doc_idem_stmt] is the documented ground truth, written by recursion on the syntax from the
+    property text: a now()/uuid() call (name by CQL identifier rules, unqualified or qualified by
+    system) anywhere in any term -- values, relation operands, collection elements, map keys and
+    values, UDT fields, tuple elements, cast operands, function arguments, subscripts --, counter
+    batches, [c = c +/- t], [c = t + c], [c +=/-= t] unless [t] is a set/map/UDT/tuple literal, a
+    delete-by-index whose index is an integer, bind marker, call or cast, and any IF clause make
+    a statement non-idempotent.  [wf_stmt] (Model/Ast.v) excludes: nesting deeper than the
+    parser's limit, a tuple literal starting with a function call, a CONTAINS operand starting
+    with an identifier spelled [key], a tuple relation without columns -- each shown necessary
+    by an Example in Proofs/AstProofs.v, each refused (never accepted) by the classifier. *)
+
+(** Sound: whatever the classifier reports idempotent contains none of the documented
+    non-idempotent constructs, at any nesting depth, in any statement form including batches. *)
+Theorem c06_classifier_sound :
+  forall st, wf_stmt st -> fst (is_idempotent_tokens (tokens_of_stmt st)) = true -> doc_idem_stmt st = true.
+Proof. exact classifier_sound. Qed.
+Print Assumptions c06_classifier_sound.
+
+(** Plain mutations -- literals, bind markers, collection/tuple/UDT literals of such, set/map
+    additions, no IF -- are reported idempotent, without a parse error. *)
+Theorem c06_plain_mutations_accepted :
+  forall st, wf_stmt st -> plain_stmt st = true -> is_idempotent_tokens (tokens_of_stmt st) = (true, 0).
+Proof. exact classifier_accepts_plain. Qed.
+Print Assumptions c06_plain_mutations_accepted.
+
+(** Exact: on the grammar the verdict is the documented one (the only corner: a call qualified
+    by the empty quoted keyspace [""] is treated like an unqualified one -- stricter). *)
+Theorem c06_classifier_decides_documented :
+  forall st, wf_stmt st -> noemptyks_stmt st = true ->
+    fst (is_idempotent_tokens (tokens_of_stmt st)) = doc_idem_stmt st.
+Proof. exact classifier_decides_documented. Qed.
+Print Assumptions c06_classifier_decides_documented.
+
+(** and is the function [cls_stmt] of the syntax, which is sound without any side condition *)
+Theorem c06_verdict_on_syntax :
+  forall st, wf_stmt st -> fst (is_idempotent_tokens (tokens_of_stmt st)) = cls_stmt st.
+Proof. exact classifier_verdict. Qed.
+Print Assumptions c06_verdict_on_syntax.
+
+Theorem c06_syntax_verdict_sound : forall st, cls_stmt st = true -> doc_idem_stmt st = true.
+Proof. exact cls_sound. Qed.
+Print Assumptions c06_syntax_verdict_sound.
+
+(** Non-vacuity: a batch whose second child hides now() in a map value inside a list is
+    well-formed, prints to exactly the tokens of its CQL text, and is refused. *)
+Example c06_deep_now :
+  wf_stmt ex_deep_now /\ fst (is_idempotent_tokens (tokens_of_stmt ex_deep_now)) = false /\ doc_idem_stmt ex_deep_now = false.
+Proof. repeat split; vm_compute; reflexivity. Qed.
 
 (** A trailing ';' ends the statement like the end of input does. *)
 Theorem c06_terminator_tokens : is_dml_terminator tkEOS = true /\ is_dml_terminator tkEOF = true.
